@@ -76,12 +76,21 @@ impl TxModel {
         let ds = dut_steps(tr, d);
         let mut svcs: Vec<Svc> = vec![];
         for (order, a) in tr.api.iter().enumerate() {
-            if a.d != d || a.op == usize::MAX || a.outcome != ApiOutcome::Ok {
+            if a.d != d || a.outcome != ApiOutcome::Ok {
                 continue;
             }
+            // calls made from the yield plan (at a yield point of the daemon) count like scripted ones
+            let the_op: &Op = if a.op == usize::MAX {
+                match &a.yield_op {
+                    Some(o) => o,
+                    None => continue,
+                }
+            } else {
+                &scn.ops[a.op].op
+            };
             let Some(step) = consumed_in(&ds, a) else { continue };
             let t = tr.steps[step].t;
-            match &scn.ops[a.op].op {
+            match the_op {
                 Op::Register { svc, .. } => {
                     let (base, sub) = split_sub(&svc.ty);
                     let fullname = fullname_of(svc);
